@@ -461,7 +461,9 @@ def run_replay(pid, mod, path):
     sys.stdout = io.StringIO()
     try:
         try:
-            guarded(lambda c: mod.replay(body["kind"], c), body["case"])
+            # (under the per-case CPU alarm and its line-bounded re-run, like a generated case: a replay that hangs on
+            # a changed tree must end in a verdict, not in the watchdog)
+            run_case(lambda c: mod.replay(body["kind"], c), body["case"])
         finally:
             sys.stdout = real
     except Violation as v:
